@@ -1,5 +1,6 @@
 import Verif.Model.Cognates
 import Verif.Model.Partial
+import Verif.Model.Components
 import Verif.Driver.Util
 namespace Verif.Driver
 open Verif.Cognates
@@ -27,6 +28,18 @@ def handleCog (fs : List (List String)) : Option String :=
       | [a, b] => (nat! a, (b.splitOn ",").filter (· ≠ "") |>.map nat!)
       | _ => (0, [])
     some ("S " ++ " ".intercalate ((Verif.Partial.strictIds rs).map fun e => s!"{e.1}={e.2}"))
+  | [["looseok"], [k], ids, lab, par, rank] =>
+    -- ids: one token per word "a,b,c"
+    let idl : List (List Nat) := ids.map fun s => (s.splitOn ",").filter (· ≠ "") |>.map nat!
+    some (if Verif.Comp.looseOkb (nat! k) idl (nats lab) (nats par) (nats rank) then "ok" else "bad")
+  | [["ppok"], [k], word, old, new, edges, par, rank] =>
+    -- edges: tokens "i,j"
+    let es : List (Nat × Nat) := edges.filterMap fun s =>
+      match s.splitOn "," with
+      | [a, b] => some (nat! a, nat! b)
+      | _ => none
+    let edge := fun (a b : Nat) => es.contains (a, b)
+    some (if Verif.Comp.ppOkb (nat! k) (nats word) (nats old) (nats new) edge (nats par) (nats rank) then "ok" else "bad")
   | _ => none
 
 end Verif.Driver
